@@ -200,7 +200,7 @@ class SpectralDensity(DFunction, UnitsManaged):
                     
                 elif ftype == "Underdamped":
            
-                    self._make_underdamped(params)
+                    self._make_underdamped(prms, values)
                     
                 elif ftype == "B777":
                     
@@ -208,7 +208,7 @@ class SpectralDensity(DFunction, UnitsManaged):
                     
                 elif ftype == "CP29":
                     
-                    self._make_CP29_spectral_density(params, values)
+                    self._make_CP29_spectral_density(prms, values)
                     
                 elif ftype == "Value-defined":
         
@@ -297,16 +297,15 @@ class SpectralDensity(DFunction, UnitsManaged):
             cfce = 2*(lamb*omega*gamma*omega0**2)/((omega**2 - \
                      omega0**2)**2 + (gamma*omega)**2)
 
+        # the component is accumulated (the function may be composed)
         if values is not None:
-            self._make_me(self.axis, values)
+            self._add_me(self.axis, values)
         else:
-            self._make_me(self.axis, cfce)
+            self._add_me(self.axis, cfce)
 
         # this is in internal units
-        self.lamb = lamb            
-        self.lim_omega = numpy.zeros(2)
-        self.lim_omega[0] = 0.0
-        self.lim_omega[1] = 4*(gamma*(omega0**2))/((omega0**2)**2)
+        self.lamb += lamb
+        self.lim_omega[1] += 4*(gamma*(omega0**2))/((omega0**2)**2)
         
     # See Renger, Journal of Chemical Physics 2002
     # See Jang, Newton, Silbey, J Chem Phys. 2007 for alternate form
@@ -363,15 +362,13 @@ class SpectralDensity(DFunction, UnitsManaged):
             # This brings the reorganisation energy up to the literature value of 102
             #cfce = cfce * 3.19
 
+        # the component is accumulated (the function may be composed)
         if values is not None:
-            self._make_me(self.axis, values)
+            self._add_me(self.axis, values)
         else:
-            self._make_me(self.axis, cfce)
+            self._add_me(self.axis, cfce)
 
-        self.lamb = params["reorg"]            
-        self.lim_omega = numpy.zeros(2)
-        self.lim_omega[0] = 0.0
-        self.lim_omega[1] = 0.0
+        self.lamb += params["reorg"]
         
     def _make_CP29_spectral_density(self, params, values = None):
     #This pectral density is based on the one calculated from FLN by 
@@ -410,21 +407,20 @@ class SpectralDensity(DFunction, UnitsManaged):
             cfce[numpy.where(omega < 0)] = -1*cfce[numpy.where(omega < 0)]     
             cfce[numpy.isclose(omega, 0, atol=1e-05)] = 0
             
+        # the component is accumulated (the function may be composed)
         if values is not None:
-            self._make_me(self.axis, values)
-            print('spectral density made from correlation function values')
+            self._add_me(self.axis, values)
 
         else:
-            self._make_me(self.axis, cfce)
+            # normalize the component on its own
+            aux = SpectralDensity()
+            aux._make_me(self.axis, cfce)
             with energy_units("int"):
-                meareorg = self.measure_reorganization_energy()
+                meareorg = aux.measure_reorganization_energy()
             cfce = (lamb/meareorg)*cfce
-            self._make_me(self.axis, cfce)
+            self._add_me(self.axis, cfce)
 
-        self.lamb = lamb     
-        self.lim_omega = numpy.zeros(2)
-        self.lim_omega[0] = 0.0
-        self.lim_omega[1] = 0.0
+        self.lamb += lamb
             
     def _make_value_defined(self, values=None):
         """ Value defined spectral density
